@@ -17,18 +17,24 @@ enum { C12_S_START, C12_S_SIGN, C12_S_INT, C12_S_DOT, C12_S_FRAC, C12_S_BAD };
 static unsigned g_st;       /* acceptor state */
 static unsigned g_on;       /* characters emitted */
 static unsigned g_id, g_fd; /* digits before / after the point */
-static char g_first[8];     /* the first characters */
+static char g_first[8];     /* the first characters (nan / inf tokens) */
+static unsigned g_minus;    /* the stream starts with '-' */
 static double g_s;          /* the spec's scaled fraction: frac(|a|) * 10^(iterations so far) */
 static unsigned g_z;        /* iterations in which g_s < 1 (leading zeros of the fraction) */
 
 #define C12_ISDIG(c) ((c) >= '0' && (c) <= '9')
 static inline void c12_sink(char c)
 {
-    if (g_on < 8)
+    /* the first characters are kept for the nan / inf tokens only (never once the point has been seen, so the
+     * fraction loop does not touch g_first); the counter saturates */
+    if (g_on < 8 && g_st != C12_S_DOT && g_st != C12_S_FRAC)
         g_first[g_on] = c;
-    g_on++;
-    if (g_st == C12_S_START && c == '-')
+    if (g_on < 1000u)
+        g_on++;
+    if (g_st == C12_S_START && c == '-') {
         g_st = C12_S_SIGN;
+        g_minus = 1;
+    }
     else if ((g_st == C12_S_START || g_st == C12_S_SIGN || g_st == C12_S_INT) && C12_ISDIG(c)) {
         g_st = C12_S_INT;
         g_id++;
@@ -44,10 +50,19 @@ static inline void c12_sink_reset(void)
 {
     g_st = C12_S_START;
     g_on = g_id = g_fd = 0;
+    g_minus = 0;
     g_z = 0;
 }
 
 /* number of integer digits of x >= 0 (0 when x < 1); loop-free, usable in invariants */
+/* number of decimal digits of a uint64_t (1 for 0) */
+#define C12_NDIG64(x)                                                                                          \
+    ((x) < 10ull ? 1u : (x) < 100ull ? 2u : (x) < 1000ull ? 3u : (x) < 10000ull ? 4u : (x) < 100000ull ? 5u       \
+     : (x) < 1000000ull ? 6u : (x) < 10000000ull ? 7u : (x) < 100000000ull ? 8u : (x) < 1000000000ull ? 9u       \
+     : (x) < 10000000000ull ? 10u : (x) < 100000000000ull ? 11u : (x) < 1000000000000ull ? 12u                   \
+     : (x) < 10000000000000ull ? 13u : (x) < 100000000000000ull ? 14u : (x) < 1000000000000000ull ? 15u          \
+     : (x) < 10000000000000000ull ? 16u : (x) < 100000000000000000ull ? 17u : (x) < 1000000000000000000ull ? 18u \
+     : (x) < 10000000000000000000ull ? 19u : 20u)
 #define C12_DIGITS(x)                                                                                         \
     ((x) < 1.0 ? 0u : (x) < 1e1 ? 1u : (x) < 1e2 ? 2u : (x) < 1e3 ? 3u : (x) < 1e4 ? 4u : (x) < 1e5 ? 5u       \
      : (x) < 1e6 ? 6u : (x) < 1e7 ? 7u : (x) < 1e8 ? 8u : (x) < 1e9 ? 9u : (x) < 1e10 ? 10u : (x) < 1e11 ? 11u \
